@@ -427,6 +427,11 @@ func runC41(t *testing.T, tape *simrt.Tape, env dst.Env) *simrt.Outcome {
 		lastSeenC := map[int64]int{}  // msg id -> client time of its previous transmission
 		fx.srv.onMsg = func(m *clientMsg) {
 			nowC := int(fx.clk.Now().Unix())
+			// bookkeeping per request: a request re-sent under a new message id is still that request
+			rk := m.msgID
+			if tag, isReq := reqTag(m.body); isReq {
+				rk = tag
+			}
 			// The salt on the wire: the last salt told, or a future salt given by
 			// the server whose validity ends after the look-ahead window. When no
 			// given salt outlives the window and nothing new was told, the
@@ -478,8 +483,8 @@ func runC41(t *testing.T, tape *simrt.Tape, env dst.Env) *simrt.Outcome {
 				}
 				viol(rule, sig, "message %d carries salt %d at client time %d; the last salt the server told is %d and the future salts it gave are %v (salt, since, until)", m.msgID, m.salt, nowC, lastTold, stored)
 			}
-			if want, ok := expectSalt[m.msgID]; ok {
-				delete(expectSalt, m.msgID)
+			if want, ok := expectSalt[rk]; ok {
+				delete(expectSalt, rk)
 				fresh := false // a future salt given after that rejection is as new
 				for _, f := range stored {
 					if f.salt == m.salt && f.givenAt >= toldAt && f.until > nowC+lookAhead {
@@ -490,8 +495,8 @@ func runC41(t *testing.T, tape *simrt.Tape, env dst.Env) *simrt.Outcome {
 					viol("C41.resend-salt", "resend-salt", "message %d was rejected with bad_server_salt(new salt %d) but re-sent with salt %d", m.msgID, want, m.salt)
 				}
 			}
-			if rejected[m.msgID] > 0 {
-				sendsAfter[m.msgID]++
+			if rejected[rk] > 0 {
+				sendsAfter[rk]++
 			}
 			switch {
 			case m.typeID == mt.PingDelayDisconnectRequestTypeID:
@@ -539,13 +544,13 @@ func runC41(t *testing.T, tape *simrt.Tape, env dst.Env) *simrt.Outcome {
 				if !isReq {
 					return
 				}
-				if rejected[m.msgID] < rejectPlan[tag] {
-					rejected[m.msgID]++
-					sendsAfter[m.msgID] = 0
+				if rejected[rk] < rejectPlan[tag] {
+					rejected[rk]++
+					sendsAfter[rk] = 0
 					nextSalt++
 					recentTold = append(recentTold, toldRec{lastTold, simrt.Now()})
 					toldAt, lastTold = simrt.Now(), nextSalt
-					expectSalt[m.msgID] = nextSalt
+					expectSalt[rk] = nextSalt
 					simrt.FaultFired("bad-server-salt", "msg %d -> new salt %d", m.msgID, nextSalt)
 					fx.srv.send(enc(&mt.BadServerSalt{BadMsgID: m.msgID, BadMsgSeqno: int(m.seqNo), ErrorCode: 48, NewServerSalt: nextSalt}), sendOpt{tag: "bad_server_salt", noFaults: true})
 					return
